@@ -185,9 +185,9 @@ def check_data(run, model, tb, d, tag, shrink=True):
             run.nontriv((tb.desc.get("drawer") or tuple(tb.desc["header_lines"]), bytes(d)))
         return True
     run.disagreements_checked += 1
-    if shrink and len(d) > 8:
+    if shrink and len(d) > 8 and len(run.violations) < 2:
         # look for a single entry that shows it
-        for i in range(0, len(d) - len(d) % 8, 8):
+        for i in range(0, min(len(d) - len(d) % 8, 8 * 64), 8):
             if not check_data(run, model, tb, d[i:i + 8], tag + ":shrunk", shrink=False):
                 return False
     rep = dict(fn="ilog", table=tb.desc, input_hex=bytes(d).hex(), actual=got,
